@@ -47,6 +47,7 @@ func checkC16(c *Check) {
 	c.updateFraming("C16.1 section-slices", "C16.2 guards-before-callbacks")
 	c.attrIteration("C16.1 attribute-slices", "C16.3 duplicates-and-overruns")
 	c.bitmapAgreement("C16.3 bitmap-agreement")
+	c.decoderStateless("C16.3 decoder-stateless")
 	c.checkBounds("C16.4", []string{"UpdateDecoder.Decode", "UpdateDecoder.decodePathAttrs", "attrsBitmap.set", "attrsBitmap.isSet"}, 20)
 }
 
@@ -563,4 +564,58 @@ func (c *Check) bitmapAgreement(rule string) {
 	b, okB := get("attrsBitmap.isSet")
 	ok := okA && okB && a == b && a.div == a.bits && a.mod == a.bits && a.n*a.bits >= 256
 	c.require(ok, rule, "attrsBitmap", "set/isSet agree", "-", fmt.Sprintf("both use word b/%d and bit b%%%d of a [%d]uint%d (set: %+v, isSet: %+v)", a.bits, a.bits, a.n, a.bits, a, b))
+}
+
+// decoderStateless: the partition of one UPDATE depends on that UPDATE only.
+// An UpdateDecoder is reused for every message of a session, so nothing may
+// survive a Decode call inside it: its fields are written only while it is
+// constructed, no method takes the address of a field for anything but a
+// load, and the duplicate-attribute bitmap is a local of decodePathAttrs
+// (zero on every call, on every exit path).
+func (c *Check) decoderStateless(rule string) {
+	p := c.P
+	n := 0
+	for _, top := range p.FuncSeq {
+		for _, fn := range withAnon(top) {
+			allInstrs(fn, func(in ssa.Instruction) {
+				fa, ok := in.(*ssa.FieldAddr)
+				if !ok || structNameOfPtr(fa.X.Type()) != "UpdateDecoder" {
+					return
+				}
+				n++
+				if addrRootedAtAlloc(fa) {
+					c.ok(rule, p.Name(fn), "field of a decoder under construction", p.InstrPos(fa), "constructor")
+					return
+				}
+				onlyLoads := true
+				for _, r := range *fa.Referrers() {
+					if u, isU := r.(*ssa.UnOp); !isU || u.Op != token.MUL {
+						onlyLoads = false
+					}
+				}
+				c.require(onlyLoads, rule, p.Name(fn), "UpdateDecoder."+structFieldName(fa)+" only loaded", p.InstrPos(fa),
+					"methods only read the decoder's fields; a store, or an address handed to a callee, makes one Decode depend on the previous one")
+			})
+		}
+	}
+	c.floor(rule, n, 4, "accesses to UpdateDecoder fields")
+	// the bitmap handed to set/isSet is a local of the calling function
+	m := 0
+	for _, top := range p.FuncSeq {
+		for _, fn := range withAnon(top) {
+			for _, d := range []string{"attrsBitmap.set", "attrsBitmap.isSet"} {
+				for _, cl := range p.callsIn(fn, descIs(d)) {
+					if strings.HasPrefix(p.Name(fn), "attrsBitmap.") {
+						continue
+					}
+					m++
+					recv := cl.Common().Args[0]
+					_, isAlloc := recv.(*ssa.Alloc)
+					c.require(isAlloc && !inLoop(recv.(ssa.Instruction).Block()), rule, p.Name(fn), "bitmap receiver of "+d, p.InstrPos(cl.(ssa.Instruction)),
+						"the duplicate bitmap is a variable of this call (allocated and zeroed once per call, outside the attribute loop)")
+				}
+			}
+		}
+	}
+	c.floor(rule, m, 2, "attrsBitmap.set/isSet call sites")
 }
